@@ -1,6 +1,7 @@
 package vc
 
 import (
+	"os"
 	"fmt"
 	"go/ast"
 	"go/types"
@@ -145,6 +146,65 @@ func (f *Frame) lookupVar(name string, b *ssa.BasicBlock, idx int, st *State) (*
 		}
 	}
 	return nil, false
+}
+
+var embWrap = regexp.MustCompile(`^\(\|?emb![^ ]+ (.*)\)$`)
+
+// isFreshInIteration: the term denotes an object allocated after the loop head was reached in the
+// exploratory pass: (+ ... (+ A 1) ... 1) with at least one increment, where A is the allocation watermark
+// at the loop head (entryAlloc) or a watermark symbol introduced later (alloc!N with N > numBefore, e.g. by
+// a nested loop); the address of a struct embedded in such an object counts as well.
+func (u *Unit) isFreshInIteration(term string, numBefore int, entryAlloc string) bool {
+	for {
+		m := embWrap.FindStringSubmatch(term)
+		if m == nil {
+			break
+		}
+		term = m[1]
+	}
+	// named allocation references resolve to their definition
+	if d, ok := u.refDefs[term]; ok {
+		term = d
+	}
+	incs := 0
+	for strings.HasPrefix(term, "(+ ") && strings.HasSuffix(term, " 1)") {
+		term = strings.TrimSuffix(strings.TrimPrefix(term, "(+ "), " 1)")
+		incs++
+		if d, ok := u.refDefs[term]; ok {
+			term = d
+		}
+	}
+	if incs == 0 {
+		return false
+	}
+	if term == entryAlloc {
+		return true
+	}
+	name := strings.Trim(term, "|")
+	if strings.HasPrefix(name, "alloc!") {
+		if n, err := strconv.Atoi(name[len("alloc!"):]); err == nil && n > numBefore {
+			return true
+		}
+	}
+	return false
+}
+
+// backPattern: a second trigger for a frame axiom, over the heap before the havoc, so that a fact known
+// about an old object carries over to the new heap without the goal having to mention the new heap
+// first. A heap that is not a plain symbol (a store chain or a merge, possibly behind a defined name: an
+// ite inside a pattern is rejected by z3) gets a constant equal to it to trigger on.
+func (u *Unit) backPattern(st *State, old T) string {
+	if os.Getenv("GOVC_NO_BACKPATTERN") != "" {
+		return ""
+	}
+	name := strings.Trim(old.S, "|")
+	plain := !strings.ContainsAny(old.S, "( ") && (strings.HasPrefix(name, "Hh!") || strings.HasPrefix(name, "H0!") || strings.HasPrefix(name, "H0e"))
+	if !plain {
+		al := u.fresh("Hp", old.Sort)
+		u.assume(st, eq(al, old))
+		old = al
+	}
+	return fmt.Sprintf(" :pattern ((select %s r!q))", old.S)
 }
 
 // loopHeadValue: the header phi named name of the innermost loop that contains block b.
@@ -407,6 +467,14 @@ func (f *Frame) enterLoop(li *loopInfo, cur *State, rc *runCtx) {
 			}
 		}
 		if !inv {
+			// a write to an object that the iteration itself allocated (possibly to a struct embedded in it)
+			// cannot touch anything that existed before the loop: such writes need no entry in the frame
+			if u.isFreshInIteration(w.base.S, numBefore, li.pre.alloc.S) {
+				if _, seen := bases[w.key]; !seen {
+					bases[w.key] = nil
+				}
+				continue
+			}
 			variant[w.key] = true
 			continue
 		}
@@ -487,6 +555,9 @@ func (f *Frame) enterLoop(li *loopInfo, cur *State, rc *runCtx) {
 			}
 			li.frameB[k] = bases[k]
 		} else {
+			if os.Getenv("GOVC_DEBUG_FRAMES") != "" {
+				fmt.Fprintf(os.Stderr, "NOFRAME %s loop %s key %s\n", u.name, li.key, k)
+			}
 			// bases vary with the iteration: only the allocation frame can be kept
 			// when every write goes to an object allocated inside the loop — not
 			// known syntactically, so no frame is assumed.
@@ -496,7 +567,7 @@ func (f *Frame) enterLoop(li *loopInfo, cur *State, rc *runCtx) {
 		if len(excl) > 0 {
 			cond = "(and " + cond + " " + strings.Join(excl, " ") + ")"
 		}
-		u.assume(cur, T{fmt.Sprintf("(forall ((r!q Int)) (! (=> %s (= (select %s r!q) (select %s r!q))) :pattern ((select %s r!q))))", cond, nh.S, old.S, nh.S), SBool})
+		u.assume(cur, T{fmt.Sprintf("(forall ((r!q Int)) (! (=> %s (= (select %s r!q) (select %s r!q))) :pattern ((select %s r!q))%s))", cond, nh.S, old.S, nh.S, u.backPattern(cur, old)), SBool})
 	}
 	// the iterator's visited set only grows within the map's (current) domain — left to invariants
 	// 4. assume the invariants for an arbitrary iteration
